@@ -21,6 +21,7 @@ VOCAB = [
     (S, False, "ENDS_WITH", ".", "a"), (S, False, "EQUALS", ".", "true"),
     (S, True, "LESS_THAN", ".", "2"), (S, False, "EQUALS", "b", "a"),
     ("slice", 0, 1), ("slice", 0, 2), ("slice", 1, 1),
+    ("slice", -2, -1), ("slice", -1, -1),
 ]
 
 KINDS = {"key": "K", "index": "I", "slice": "SL", "anchor": "A", "search": "S",
